@@ -63,8 +63,12 @@ class AuxModel:
         return n
 
     def cell(self, col, row):
-        if not isinstance(col, int) or not isinstance(row, int):
-            raise Unanalysable("symbolic trace coordinate (%r, %r)" % (col, row))
+        if not isinstance(col, int):
+            raise Unanalysable("symbolic trace column %r" % (col,))
+        if not isinstance(row, int):
+            # a row computed from trace values (e.g. a hasher address): a cell of that column at a data-dependent row
+            self.touched.add((col, "sym"))
+            return Poly.var("%s[%s]" % (self.names.get(col, "col%d" % col), re.sub(r"\s+", "", repr(row))[:60]))
         self.touched.add((col, row - BASE))
         if (col, row - BASE) in self.fixed:
             return Poly.const(self.fixed[(col, row - BASE)])
